@@ -25,6 +25,11 @@ class ClauseTheory(CompilerTheory):
             return SV('HasVars', None, {'variables': ex.fresh('(Seq String)', n + '_variables')})
         if sort == 'Clause':
             return SV('Clause', None, {'hargs': ex.fresh('TAL', n + '_hargs'), 'body': ex.fresh('Body', n + '_body')})
+        if sort == 'PredAst':
+            # a Predicate node of the clause AST: its functor is a compound term (name, argument list)
+            e = ex.fresh('TA', n)
+            st.assume('((_ is TAFun) %s)' % e)
+            return SV('PredAst', e)
         if sort in ('TA', 'TAL', 'CE', 'CEL'):
             e = ex.fresh(sort, n)
             if sub:
@@ -68,6 +73,8 @@ class ClauseTheory(CompilerTheory):
             if attr == 'name':
                 ex.oblige(st, 'safety.attr.name', '((_ is TAFun) %s)' % b, 'safety')
                 return [(st, SV('TAFunName', b))]
+        if base.sort == 'PredAst' and attr == 'functor':
+            return [(st, SV('TA', b))]
         if base.sort == 'Stmt' and attr == 'loop_code':
             ex.oblige(st, 'safety.attr.loop_code', OR('((_ is SForeach) %s)' % b, '((_ is SUnify) %s)' % b), 'safety')
             return [(st, SV('Code', ITE('((_ is SForeach) %s)' % b, '(fc %s)' % b, '(uc %s)' % b)))]
@@ -244,12 +251,20 @@ class ClauseTheory(CompilerTheory):
                 return [(st, SV('UnifyCall', None, {'var': '(cevname %s)' % items[0].e, 'expr': items[1].e}))]
             if fn == smt_str('variable') and not items:
                 return [(st, SV('VariableCall', None))]
+            if fn == smt_str('query') and isrt == ['CEStr', 'CEL']:
+                return [(st, SV('QueryCall', None, {'name': items[0].e, 'args': items[1].e}))]
         if name == 'YPCodeForeach' and len(args) == 2 and args[0].sort == 'UnifyCall':
             code = args[1]
             if code.sort == 'PyList' and not code.meta['items']:
                 code = SV('Code', 'cnil')
             if code.sort == 'Code':
                 return [(st, SV('Stmt', '(SUnify %s %s %s)' % (args[0].meta['var'], args[0].meta['expr'], code.e)))]
+        if name == 'YPCodeForeach' and len(args) == 2 and args[0].sort == 'QueryCall':
+            code = args[1]
+            if code.sort == 'PyList' and not code.meta['items']:
+                code = SV('Code', 'cnil')
+            if code.sort == 'Code':
+                return [(st, SV('Stmt', '(SQuery %s %s %s)' % (args[0].meta['name'], args[0].meta['args'], code.e)))]
         if name == 'YPCodeAssign' and len(args) == 2 and args[0].sort == 'CE':
             if args[1].sort == 'CE':
                 ex.oblige(st, 'safety.assign_between_variables', AND('((_ is CEVar) %s)' % args[0].e, '((_ is CEVar) %s)' % args[1].e), 'safety')
